@@ -85,10 +85,30 @@ package federation
 // refresh has installed in the meantime (key filtering and argument checks would otherwise mix two schema versions).
 //@ func Executor.execute
 //@   call Executor.runOnService assert arg3 == p.Service && arg5 == keys && arg7 == p.SelectionSet && arg9 == planner
+//@   nocall Executor.getPlanner
+// ... and the hop itself: the federated keys handed to the service are filtered with the request's planner, and the
+// sub-request carries the plan's operation kind and the request's metadata
+//@ func Executor.runOnService
+//@   nocall Executor.getPlanner
+//@   call Execute assert arg2 != nil && arg2.Query != nil && arg2.Query.Kind == kind && arg2.Metadata == metadata
 //@ func Executor.execute$1
+//@   nocall Executor.getPlanner
 //@   call Executor.execute assert arg6 == planner && arg5 == metadata
 //@ func Executor.Execute
 //@   call Executor.execute assert arg3 == plan && arg5 == metadata && arg6 == planner
+
+// ---- C06 (a sub-plan below a union member applies to objects of that member only): every sub-plan planUnion hands up
+// ends its path with the type step of the member it was planned for - whatever the number of fragments in the query, the
+// DATA may hold other members, and without the step the executor would look for federation keys on them.
+//@ func Planner.planUnion
+//@   call append#4 assert arg1[0] == subPlan && len(subPlan.Path) > 0 && subPlan.Path[len(subPlan.Path)-1].Kind == KindType && subPlan.Path[len(subPlan.Path)-1].Name == typ.Name
+
+// ---- C06 / C19 (which fragments apply): a fragment on an object type applies to that object; a fragment on a union
+// applies to the union's MEMBERS (looked up by the object's name, not the union's own).
+//@ func flattener.applies
+//@   ensures err == nil && (f.types[fragment.On] is *graphql.Object) ==> result == (f.types[fragment.On].(*graphql.Object).Name == obj.Name)
+//@   ensures err == nil && (f.types[fragment.On] is *graphql.Union) ==> result == (obj.Name in f.types[fragment.On].(*graphql.Union).Types)
+//@   ensures err == nil ==> (f.types[fragment.On] is *graphql.Object) || (f.types[fragment.On] is *graphql.Union)
 
 // ---- C06 (the gateway's bookkeeping never reaches the client): deleteKey removes the key from an object AND descends into
 // every value of the object and every element of a list - objects handed to one service may contain objects handed to another.
